@@ -4,6 +4,7 @@ from props.base import PropBase
 
 class C17(PropBase):
     id = "C17"
+    shown_columns = ('RG',)
     corr_fields = ['reg']
     lean_modules = ["SqModel.Props.C17"]
     extractors = ["country"]
